@@ -346,6 +346,23 @@ def run_check(pid, tier, seed, replay=None):
     obligations.append(("Print Assumptions on %d theorems of Properties/%s.v lists only standard-library axioms" % (len(names), pid),
                         axioms is not None and all(std_axiom(a) for a in axioms), axioms if axioms is not None else ass_out))
 
+    if tier == "thorough" and tie_ok:
+        # independent re-check of the compiled theorems and everything they depend on, with the axiom list
+        mods = ["CP.Tie.%s" % pid] + ["CP.Tie.%s" % g for g in getattr(mod, "LEAF", [])]
+        rc, out = sh(["coqchk", "-silent", "-o", "-R", COQ, "CP"] + mods, timeout=7200)
+        chk_axioms = []
+        if "* Axioms:" in out:
+            blk = out.split("* Axioms:", 1)[1].split("* Constants/Inductives", 1)[0]
+            chk_axioms = [l.strip() for l in blk.splitlines() if l.strip() and l.strip() != "<none>"]
+        def chk_std(a):
+            short = a[4:] if a.startswith("Coq.") else a
+            return any(short.endswith(x) for x in STD_AXIOMS) or any(("." + pre) in ("." + short) for pre in STD_PREFIXES) \
+                or short.startswith(("Numbers.Cyclic.Int63.", "Floats.", "Interval.", "Flocq."))
+        clean = rc == 0 and all(chk_std(a) for a in chk_axioms) and "type-in-type: <none>" in out and "unsafe (co)fixpoints: <none>" in out and "positivity is assumed: <none>" in out
+        obligations.append(("coqchk re-checks %s (independent checker; %d axioms, all declared by the standard library; no type-in-type, unsafe fixpoints or assumed positivity)" % (" ".join(mods), len(chk_axioms)),
+                            clean, None if clean else out[-1500:]))
+        notes.append("coqchk axioms: " + "; ".join(chk_axioms))
+
     failing_items = []
     if info.get("ok") and not tie_ok and hasattr(mod, "DIAG"):
         rc, out = run_coq_snippet("diag_" + pid, mod.DIAG)
